@@ -10,6 +10,7 @@ import (
 	"runtime"
 	"strings"
 	"sync"
+	"sync/atomic"
 	"time"
 
 	"github.com/mark3labs/flyt"
@@ -18,18 +19,19 @@ import (
 type PoolCfg struct {
 	W, S, Per, Rounds int
 	Gated             bool
-	Sched             string // script | random | free | barrier
+	Sched             string // script | random | free | barrier | full | paced
+	Open              bool   // a slice of a longer run: the pool is not closed at its end
 }
 
 func parsePoolCfg(m map[string]any) PoolCfg {
-	c := PoolCfg{W: asInt(m["W"]), S: asInt(m["S"]), Per: asInt(m["per"]), Rounds: asInt(m["rounds"]), Gated: asBool(m["gated"]), Sched: asStr(m["sched"])}
+	c := PoolCfg{W: asInt(m["W"]), S: asInt(m["S"]), Per: asInt(m["per"]), Rounds: asInt(m["rounds"]), Gated: asBool(m["gated"]), Sched: asStr(m["sched"]), Open: asBool(m["open"])}
 	if c.Sched == "" {
 		c.Sched = "script"
 	}
 	return c
 }
 func (c PoolCfg) toJSON() map[string]any {
-	return map[string]any{"W": c.W, "S": c.S, "per": c.Per, "rounds": c.Rounds, "gated": c.Gated, "sched": c.Sched}
+	return map[string]any{"W": c.W, "S": c.S, "per": c.Per, "rounds": c.Rounds, "gated": c.Gated, "sched": c.Sched, "open": c.Open}
 }
 
 type poolStep struct {
@@ -134,7 +136,8 @@ func runPoolScenario(cfg PoolCfg, steps []poolStep, expKeys []evKey, seed int64)
 	for s := 1; s <= cfg.S; s++ {
 		p.subGate[s] = make(chan struct{}, total+1)
 	}
-	useGates := cfg.Sched == "script" || cfg.Sched == "random"
+	useGates := cfg.Sched == "script" || cfg.Sched == "random" || cfg.Sched == "full"
+	subGates := useGates && cfg.Sched != "full" // "full": the submitters run freely until Submit itself holds them back
 
 	body := func(t int) func() {
 		return func() {
@@ -238,6 +241,25 @@ func runPoolScenario(cfg PoolCfg, steps []poolStep, expKeys []evKey, seed int64)
 				}
 				continue
 			}
+			if cfg.Sched == "full" {
+				// every task parks; nothing is released before the history has been quiet for a while, i.e. before
+				// the submitters are through or held back by a full queue
+				last := -1
+				for {
+					p.mu.Lock()
+					n := len(p.events)
+					p.mu.Unlock()
+					if n == last {
+						break
+					}
+					last = n
+					select {
+					case <-time.After(12 * time.Millisecond):
+					case <-p.done:
+						return
+					}
+				}
+			}
 			// off script / random: open all submit gates, release any parked task
 			for s := 1; s <= cfg.S; s++ {
 				select {
@@ -291,7 +313,7 @@ func runPoolScenario(cfg PoolCfg, steps []poolStep, expKeys []evKey, seed int64)
 				go func(r, s int) {
 					defer join.Done()
 					for j := 1; j <= cfg.Per; j++ {
-						if useGates {
+						if subGates {
 							<-p.subGate[s]
 						}
 						t := taskID(r, s, j)
@@ -448,6 +470,18 @@ func init() {
 					exp = asList(line["exp"])
 					steps, keys = poolStepsFromHistory(exp)
 				}
+				if cfg.Sched == "paced" {
+					chunks := runPoolPaced(cfg.W, 60000, 40, 1000000)
+					c := chunks[len(chunks)-1]
+					for _, x := range chunks {
+						if hasHang(x.evs) {
+							c = x
+							break
+						}
+					}
+					o.WriteScenario(asInt(line["scn"]), "pool", asStr(line["src"]), c.cfg.toJSON(), nil, c.evs)
+					continue
+				}
 				evs := runPoolScenario(cfg, steps, keys, seed)
 				o.WriteScenario(asInt(line["scn"]), "pool", asStr(line["src"]), cfg.toJSON(), exp, evs)
 			}
@@ -481,6 +515,23 @@ func init() {
 				continue
 			}
 			r := rand.New(rand.NewSource(seed*104729 + int64(mi)))
+			if mode == "paced" {
+				// tens of thousands of tiny rounds on one small pool; the pause between the two submissions of a round
+				// sweeps over the duration of a task, so that a Submit meets a worker in every stage of going idle
+				for _, size := range []int{1, 0, 2} {
+					rounds := 600 * count
+					if tooManyHangs() {
+						break
+					}
+					chunks := runPoolPaced(size, rounds, 40, 25)
+					for _, c := range chunks {
+						noteHang(c.evs)
+						id++
+						o.WriteScenario(id, "pool", "gen:paced", c.cfg.toJSON(), nil, c.evs)
+					}
+				}
+				continue
+			}
 			if mode == "latesubmit" {
 				for i := 0; i < 6; i++ {
 					w, k := 2+r.Intn(4), 3+r.Intn(20)
@@ -512,6 +563,16 @@ func init() {
 				case "small":
 					cfg.W = r.Intn(5) - 1
 					cfg.Per = r.Intn(5)
+				case "full": // more tasks than queue slots and workers together, nothing finishes until Submit blocks
+					cfg.W = r.Intn(4) - 1
+					nw := cfg.W
+					if nw < 1 {
+						nw = 1
+					}
+					cfg.S = 1 + r.Intn(2)
+					cfg.Per = (3*nw+cfg.S)/cfg.S + r.Intn(3)
+					cfg.Rounds = 1 + r.Intn(2)
+					cfg.Sched = "full"
 				}
 				if tooManyHangs() {
 					break
@@ -521,6 +582,123 @@ func init() {
 				id++
 				o.WriteScenario(id, "pool", "gen:"+mode, cfg.toJSON(), nil, evs)
 			}
+		}
+	}
+}
+
+// ---- paced rounds ---------------------------------------------------------------
+
+type pacedChunk struct {
+	cfg PoolCfg
+	evs []Event
+}
+
+func hasHang(evs []Event) bool {
+	for _, e := range evs {
+		if e["ev"] == "hang" {
+			return true
+		}
+	}
+	return false
+}
+
+var pacedSink int
+
+// runPoolPaced runs `rounds` rounds of  Submit, pause, Submit, Wait  on ONE pool of the given size and cuts the history
+// into slices of `chunk` rounds (a round ends with Wait, so every slice is a complete history of its own tasks on a pool
+// that stays open).  Every `every`-th slice is returned, and always the slice in which Wait did not return; the last
+// slice closes the pool and probes for leaked workers.
+func runPoolPaced(size, rounds, chunk, every int) []pacedChunk {
+	var out []pacedChunk
+	var mu sync.Mutex
+	var cur []Event
+	logEv := func(e Event) {
+		mu.Lock()
+		cur = append(cur, e)
+		mu.Unlock()
+	}
+	base := poolWorkersAlive()
+	pool := flyt.NewWorkerPool(size)
+	cells := [2]int{}
+	var progress int64
+	finished := make(chan struct{})
+	cut := func(r int, open bool) {
+		mu.Lock()
+		evs := cur
+		cur = nil
+		mu.Unlock()
+		if (r/chunk)%every == 0 || !open {
+			out = append(out, pacedChunk{PoolCfg{W: size, S: 1, Per: 2, Rounds: chunk, Sched: "paced", Open: open}, evs})
+		}
+	}
+	go func() {
+		defer close(finished)
+		for r := 1; r <= rounds; r++ {
+			cells[0], cells[1] = 0, 0
+			for j := 0; j < 2; j++ {
+				t := 10*r + j + 1
+				cell := &cells[j]
+				logEv(Event{"ev": "submit", "task": t, "sub": 1})
+				pool.Submit(func() {
+					logEv(Event{"ev": "taskstart", "task": t, "gid": 0})
+					*cell = t
+					logEv(Event{"ev": "taskend", "task": t, "gid": 0})
+				})
+				logEv(Event{"ev": "submitret", "task": t, "sub": 1})
+				if j == 0 {
+					for k := 0; k < (r%97)*300; k++ { // the swept pause (0 .. some tens of microseconds)
+						pacedSink += k
+					}
+				}
+			}
+			logEv(Event{"ev": "waitcall", "round": r})
+			pool.Wait()
+			seen := 0
+			for j := 0; j < 2; j++ {
+				if cells[j] == 10*r+j+1 {
+					seen++
+				}
+			}
+			logEv(Event{"ev": "waitret", "round": r, "seen": seen, "submitted": 2})
+			atomic.AddInt64(&progress, 1)
+			if r%chunk == 0 && r < rounds {
+				cut(r, true)
+			}
+		}
+		logEv(Event{"ev": "closecall"})
+		pool.Close()
+		logEv(Event{"ev": "closeret"})
+		alive := 0
+		for i := 0; i < 400; i++ {
+			alive = poolWorkersAlive() - base
+			if alive <= 0 {
+				break
+			}
+			time.Sleep(5 * time.Millisecond)
+		}
+		if alive < 0 {
+			alive = 0
+		}
+		logEv(Event{"ev": "leak", "n": alive})
+	}()
+	last := int64(-1)
+	for {
+		select {
+		case <-finished:
+			cut(0, false)
+			return out
+		case <-time.After(3 * time.Second):
+			now := atomic.LoadInt64(&progress)
+			if now == last {
+				// no round completed for three seconds: Submit or Wait does not return
+				logEv(Event{"ev": "hang"})
+				mu.Lock()
+				evs := cur
+				mu.Unlock()
+				out = append(out, pacedChunk{PoolCfg{W: size, S: 1, Per: 2, Rounds: chunk, Sched: "paced", Open: true}, append([]Event{}, evs...)})
+				return out
+			}
+			last = now
 		}
 	}
 }
